@@ -172,6 +172,11 @@ func MakeCert(sp CertSpec) *Cert {
 	}
 	if sp.IssuerKey != "" {
 		signKey = Key(sp.IssuerKey)
+		// CreateCertificate refuses a signer that does not match parent.PublicKey; a deliberately
+		// wrong signing key therefore needs a parent copy without the key
+		pc := *parent
+		pc.PublicKey = nil
+		parent = &pc
 	}
 	if sp.NoAKI {
 		// CreateCertificate copies parent.SubjectKeyId into AKI; use a parent copy without it
